@@ -18,6 +18,7 @@ type GType struct {
 	Loc bool       // term is a Ref to a struct of type T living in the heap
 	Unt bool       // untyped integer constant
 	Math bool      // mathematical integer (spec only)
+	Tuple []GType  // tuple of results of a pure function (S holds the components joined by \x00)
 }
 
 type Val struct {
@@ -471,24 +472,69 @@ type compType struct {
 	key  types.Type
 }
 
+// allocFact: every reference contained in a value of type t is nil or allocated (w.r.t. allocSym).
+func (g *Gen) allocFact(t types.Type, term, allocSym string, depth int) string {
+	if depth > 3 {
+		return ""
+	}
+	switch u := t.Underlying().(type) {
+	case *types.Pointer, *types.Map:
+		return fmt.Sprintf("(or (= %s 0) (select %s %s))", term, allocSym, term)
+	case *types.Slice:
+		return fmt.Sprintf("(or (= (s.arr %s) 0) (select %s (s.arr %s)))", term, allocSym, term)
+	case *types.Struct:
+		var parts []string
+		for i := 0; i < u.NumFields(); i++ {
+			if f := g.allocFact(u.Field(i).Type(), g.fieldSel(t, i, term), allocSym, depth+1); f != "" {
+				parts = append(parts, f)
+			}
+		}
+		if len(parts) == 0 {
+			return ""
+		}
+		if len(parts) == 1 {
+			return parts[0]
+		}
+		return "(and " + strings.Join(parts, " ") + ")"
+	}
+	return ""
+}
+
+func andFacts(a, b string) string {
+	if a == "" {
+		return b
+	}
+	if b == "" {
+		return a
+	}
+	return "(and " + a + " " + b + ")"
+}
+
 // typingAxiom: heap well-typedness for an otherwise unconstrained component symbol: every value
 // stored in a typed location is within the machine range of its type (true of every Go heap).
-func (g *Gen) typingAxiom(base, sym string) string {
+func (g *Gen) typingAxiom(base, sym, allocSym string) string {
 	ct, ok := g.compTy[base]
 	if !ok {
 		return ""
 	}
+	tf := func(t types.Type, term string) string {
+		f := g.rangeFact(t, term)
+		if allocSym != "" && base != "alloc" {
+			f = andFacts(f, g.allocFact(t, term, allocSym, 0))
+		}
+		return f
+	}
 	switch ct.kind {
 	case "F", "C":
-		if rf := g.rangeFact(ct.t, fmt.Sprintf("(select %s r)", sym)); rf != "" {
+		if rf := tf(ct.t, fmt.Sprintf("(select %s r)", sym)); rf != "" {
 			return fmt.Sprintf("(assert (forall ((r Int)) (! %s :pattern ((select %s r)))))", rf, sym)
 		}
 	case "A":
-		if rf := g.rangeFact(ct.t, fmt.Sprintf("(select (select %s r) i)", sym)); rf != "" {
+		if rf := tf(ct.t, fmt.Sprintf("(select (select %s r) i)", sym)); rf != "" {
 			return fmt.Sprintf("(assert (forall ((r Int) (i Int)) (! %s :pattern ((select (select %s r) i)))))", rf, sym)
 		}
 	case "MV":
-		if rf := g.rangeFact(ct.t, fmt.Sprintf("(select (select %s r) k)", sym)); rf != "" {
+		if rf := tf(ct.t, fmt.Sprintf("(select (select %s r) k)", sym)); rf != "" {
 			return fmt.Sprintf("(assert (forall ((r Int) (k %s)) (! %s :pattern ((select (select %s r) k)))))", g.sortOf(ct.key), rf, sym)
 		}
 	case "MH":
@@ -506,7 +552,12 @@ func (g *Gen) compSym(base string, ver string) string {
 	if !g.declared[key] {
 		g.declared[key] = true
 		g.decls = append(g.decls, fmt.Sprintf("(declare-const %s %s)", sym, g.comps[base]))
-		if ax := g.typingAxiom(base, sym); ax != "" {
+		allocSym := ""
+		if base != "alloc" {
+			g.allocComp()
+			allocSym = g.compSym("alloc", ver)
+		}
+		if ax := g.typingAxiom(base, sym, allocSym); ax != "" {
 			g.decls = append(g.decls, ax)
 		}
 	}
@@ -617,7 +668,12 @@ func (g *Gen) set(s *State, base, term string) {
 func (g *Gen) havocComp(s *State, base string) string {
 	sym := g.fresh(base)
 	g.decls = append(g.decls, fmt.Sprintf("(declare-const %s %s)", sym, g.comps[base]))
-	if ax := g.typingAxiom(base, sym); ax != "" {
+	allocSym := ""
+	if base != "alloc" {
+		g.allocComp()
+		allocSym = g.get(s, "alloc")
+	}
+	if ax := g.typingAxiom(base, sym, allocSym); ax != "" {
 		g.decls = append(g.decls, ax)
 	}
 	s.m[base] = sym
